@@ -1,9 +1,9 @@
-"""C04 — decided by PlMachine/PlExpr (TLA+) over generated program families: slices,index,alias."""
+"""C04 — decided by PlMachine/PlExpr (TLA+) over generated program families: slices,index,alias,v2coll."""
 from lib import gen
 from checks import machine
 
 LEVEL = "model_checking"
-FAMILIES = "slices,index,alias".split(",")
+FAMILIES = "slices,index,alias,v2coll".split(",")
 
 
 def run(ck):
